@@ -17,5 +17,6 @@ PY
 fi
 for f in $(git ls-files -u | awk '{print $4}' | sort -u | grep '^evidence/'); do git checkout --ours -- $f; done
 python3 mkmanifest.py
+if grep -rlE '^(<<<<<<<|>>>>>>>) ' lean/PdfModel harness/src claims notes translator.json 2>/dev/null; then echo 'UNRESOLVED CONFLICT MARKERS in the files above'; exit 1; fi
 git add -A
 git ls-files -u | awk '{print $4}' | sort -u
